@@ -1,10 +1,34 @@
 import Driver.Util
 import Driver.Chunk
+import Driver.Layout
+import Driver.Repo
+import Driver.Sym
+import Driver.Store
+import Driver.Retry
+import Driver.SigV4
+import Driver.Settings
+import Driver.Options
+import Driver.RateLimit
+import Driver.Sched
 open Lean
 
+/-- one handler file per model (Driver/<Model>.lean); the request prefix selects it -/
 def dispatch (j : Json) : Except String Json := do
   let op ← Driver.getStr j "op"
   if op.startsWith "chunk." then Driver.handleChunk op j
+  else if op.startsWith "layout." then Driver.handleLayout op j
+  else if op.startsWith "restore." then Driver.handleLayout op j
+  else if op.startsWith "repo." then Driver.handleRepo op j
+  else if op.startsWith "trace." then Driver.handleRepo op j
+  else if op.startsWith "cache." then Driver.handleRepo op j
+  else if op.startsWith "sym." then Driver.handleSym op j
+  else if op.startsWith "store." then Driver.handleStore op j
+  else if op.startsWith "retry." then Driver.handleRetry op j
+  else if op.startsWith "sigv4." then Driver.handleSigV4 op j
+  else if op.startsWith "settings." then Driver.handleSettings op j
+  else if op.startsWith "options." then Driver.handleOptions op j
+  else if op.startsWith "rate." then Driver.handleRateLimit op j
+  else if op.startsWith "sched." then Driver.handleSched op j
   else throw s!"unknown op {op}"
 
 partial def loop (h : IO.FS.Stream) (out : IO.FS.Stream) : IO Unit := do
